@@ -1,3 +1,4 @@
-From Coq Require Import extraction.ExtrOcamlBasic.
+(* the binary64 rank bounds of the REQ model are extracted to OCaml floats *)
+From Coq Require Import extraction.ExtrOcamlBasic extraction.ExtrOCamlFloats extraction.ExtrOCamlInt63.
 From DS Require Import ReqDefs.
 Extraction "model_req.ml" ReqDefs.run.
